@@ -159,10 +159,40 @@ pub fn oracle_hint_no_panic(shp: &[u8], shx: Option<&[u8]>) -> Verdict {
         }
         let _ = it.size_hint();
     }));
-    match r {
-        Ok(()) => Verdict::pass(),
-        Err(e) => Verdict::fail("panic-size-hint", format!("size_hint()/next() panicked: {}", panic_msg(&e))),
+    if let Err(e) = r {
+        return Verdict::fail("panic-size-hint", format!("size_hint()/next() panicked: {}", panic_msg(&e)));
     }
+    // the adaptors that step over records: skip, nth, step_by
+    for which in 0..3usize {
+        let s = Cursor::new(shp.to_vec());
+        let x = shx.map(|x| Cursor::new(x.to_vec()));
+        let r = catch_unwind(AssertUnwindSafe(move || {
+            let rdr = match x {
+                Some(x) => ShapeReader::with_shx(s, x),
+                None => ShapeReader::new(s),
+            };
+            let mut rdr = match rdr {
+                Ok(r) => r,
+                Err(_) => return,
+            };
+            let it = rdr.iter_shapes();
+            match which {
+                0 => drop(it.skip(1).take(cap).count()),
+                1 => drop(it.step_by(2).take(cap).count()),
+                _ => {
+                    let mut it = it;
+                    let mut n = 0;
+                    while it.nth(1).is_some() && n < cap {
+                        n += 1;
+                    }
+                }
+            }
+        }));
+        if let Err(e) = r {
+            return Verdict::fail("panic-iterator-adaptor", format!("{} on the iterator panicked: {}", ["skip(1)", "step_by(2)", "nth(1)"][which], panic_msg(&e)));
+        }
+    }
+    Verdict::pass()
 }
 
 /// C10: a rejected call made through `write_shapes` (the bulk form of `write_shape`; it consumes the
@@ -225,7 +255,7 @@ impl Seek for ChunkSrc {
 }
 
 /// records re-laid with `gap(i)` filler bytes (0x2a) before record i; the index follows
-fn relay(shp: &[u8], gap: &dyn Fn(usize) -> usize, order: &[usize]) -> (Vec<u8>, Vec<u8>) {
+pub fn relay(shp: &[u8], gap: &dyn Fn(usize) -> usize, order: &[usize]) -> (Vec<u8>, Vec<u8>) {
     let recs = walk_records(shp).unwrap();
     let mut f = shp[..100].to_vec();
     let mut offs = vec![0usize; recs.len()];
